@@ -510,6 +510,8 @@ def mon_c19(sc, prof, pairs):
         sub = op + (":" + line.split()[4] if op in ("get", "index") and len(line.split()) > 4 else "")
         if i["status"] == "abort" and i.get("cause") == "ubcheck":
             out.append(Failure(sc, prof, i["step"], f"{line}: an unchecked out-of-bounds access was executed (caught by std's debug check of the unsafe precondition, which aborts the process)", f"C19:{sub}:ubcheck", {"I": i["raw"]}))
+        elif i.get("overfull") == "true":
+            out.append(Failure(sc, prof, i["step"], f"{line}: a field array now holds more elements than its allocation (something was written past its end)", f"C19:{sub}:overfull", {"I": i["raw"]}))
         elif i.get("inb", "true") != "true":
             out.append(Failure(sc, prof, i["step"], f"{line}: returned a reference beyond a field array's length", f"C19:{sub}:oob", {"I": i["raw"]}))
     return out
